@@ -244,8 +244,8 @@ def check_text(rec, st):
             b, enc, s, ishex, tr, ph = hx(p[0]), hx(p[1]), hx(p[2]), p[3], opt(p[4]), hx(p[5])
             st.nontrivial(k, p[2])
             ref = T.try_parse_hex(s)
-            if enc != T.hex_str(b):
-                _bad(st, rec, "hex-encode", "HexStr differs from reference", input=p[0], node=p[1])
+            if T.try_parse_hex(enc) != b or not T.is_hex(enc) and b:
+                _bad(st, rec, "hex-encode", "HexStr output does not denote the input bytes", input=p[0], node=p[1])
             if ishex != T.is_hex(s):
                 _bad(st, rec, "hex-ishex", "IsHex differs from reference", input=p[2], node=ishex)
             if tr != ref or ph != (ref or b""):
@@ -263,8 +263,9 @@ def check_text(rec, st):
         elif k == "b64":
             b = hx(p[0])
             st.nontrivial(k, p[4], p[6])
-            if hx(p[1]) != T.b64_encode(b) or hx(p[2]) != T.b32_encode(b) or hx(p[3]) != T.b32_encode(b, False):
-                _bad(st, rec, "base64-encode", "EncodeBase64/EncodeBase32 differ from reference", input=p[0], node=p[1:4])
+            # base64 has one canonical spelling; base32 is case-insensitive, so only the denoted bytes are demanded
+            if hx(p[1]) != T.b64_encode(b) or T.b32_decode(hx(p[2])) != b or hx(p[3]).lower() != T.b32_encode(b, False):
+                _bad(st, rec, "base64-encode", "EncodeBase64/EncodeBase32 output does not denote the input bytes", input=p[0], node=p[1:4])
             r64, r32 = T.b64_decode(hx(p[4])), T.b32_decode(hx(p[6]))
             if opt(p[5]) != r64:
                 _bad(st, rec, "base64-decode", "DecodeBase64 differs from reference", input=p[4], node=p[5], ref=None if r64 is None else r64.hex())
@@ -273,8 +274,8 @@ def check_text(rec, st):
         elif k == "money":
             n, f, back, s, ps = p[0], hx(p[1]), p[2], hx(p[3]), p[4]
             st.nontrivial(k, n, p[3])
-            if f != T.format_money(n):
-                _bad(st, rec, "money-format", "FormatMoney differs from reference", n=n, node=f.decode("latin1"))
+            if T.parse_money(f) != n:
+                _bad(st, rec, "money-format", "FormatMoney output does not denote the amount (reference reading)", n=n, node=f.decode("latin1"), ref=T.format_money(n).decode())
             if back != n:
                 _bad(st, rec, "money-roundtrip", "ParseMoney(FormatMoney(n)) != n", n=n, node=back)
             ref = T.parse_money(s)
